@@ -549,7 +549,7 @@ func (st *pkgState) staticCallee(c *ast.CallExpr) *types.Func {
 		if fn, ok := st.useOf(f.Sel).(*types.Func); ok && fn.Pkg() == st.pkg.Types {
 			if osel, ok := st.o(f).(*ast.SelectorExpr); ok {
 				if sel := st.info.Selections[osel]; sel != nil {
-					if sel.Kind() != types.MethodVal || len(sel.Index()) != 1 {
+					if sel.Kind() != types.MethodVal || len(sel.Index()) < 1 {
 						return nil
 					}
 					if types.IsInterface(sel.Recv()) {
